@@ -259,7 +259,7 @@ Definition view (r : reader) : table :=
                 | Some (off, _) => option_map bl_contains (find_filter (rd_filters r) off)
                 | None => None
                 end)
-      (fun j => match nth j blocks None with Some _ => false | None => true end).
+      (fun j => match nth j blocks (Some []) with Some _ => false | None => true end).
 
 Definition read_file (d : bytes) : table + oerr :=
   match open_file d with inl r => inl (view r) | inr e => inr e end.
